@@ -1057,3 +1057,754 @@ Proof.
   - intros o Io. specialize (A11 o Io). destruct (find_chan h c2 _ _) as [n|]; [now exists n|discriminate].
   - apply (nodupb_NoDup key_eqb key_eqb_eq), A12.
 Qed.
+
+(* ------------------------------------------------------------------ nothing is left running: for EVERY heap *)
+Lemma disconnect_nodes h a b j : nd (disconnect h a b) j = nd h j.
+Proof. unfold disconnect. destruct (memn b (c_conns (ch h a))); reflexivity. Qed.
+Lemma fold_nodes {A} (f : heap -> A -> heap) : (forall h a j, nd (f h a) j = nd h j) ->
+  forall l h j, nd (fold_left f l h) j = nd h j.
+Proof. intros F l. induction l as [|a r IH]; simpl; intros h j; [reflexivity|]. now rewrite IH, F. Qed.
+Lemma disconnect_all_nodes h a j : nd (disconnect_all h a) j = nd h j.
+Proof. unfold disconnect_all. apply (fold_nodes (fun h b => disconnect h a b)). intros; apply disconnect_nodes. Qed.
+Lemma node_disconnect_nodes h k j : nd (node_disconnect h k) j = nd h j.
+Proof. unfold node_disconnect. apply (fold_nodes disconnect_all). intros; apply disconnect_all_nodes. Qed.
+Lemma connect_nodes h a b j : nd (connect h a b) j = nd h j.
+Proof. unfold connect. destruct (memn b (c_conns (ch h a))); reflexivity. Qed.
+Lemma connect_by_labels_nodes pi po h i io j : nd (connect_by_labels pi po h i io) j = nd h j.
+Proof.
+  unfold connect_by_labels. destruct (find_child h i (fst (fst io))); [|reflexivity].
+  destruct (find_child h i (fst (snd io))); [|reflexivity].
+  destruct (find_chan h n pi (snd (fst io))); [|reflexivity].
+  destruct (find_chan h n0 po (snd (snd io))); [apply connect_nodes|reflexivity].
+Qed.
+Lemma restore_conns_nodes h i d s j : nd (restore_conns h i d s) j = nd h j.
+Proof.
+  unfold restore_conns.
+  rewrite (fold_nodes (fun h io => connect_by_labels SIn SOut h i io)) by (intros; apply connect_by_labels_nodes).
+  apply (fold_nodes (fun h io => connect_by_labels PIn POut h i io)). intros; apply connect_by_labels_nodes.
+Qed.
+Lemma graft_one_nodes h i o j : nd (graft_one h i o) j = nd h j.
+Proof.
+  destruct o as [[[orig lab] p] L]. unfold graft_one. destruct (find_chan h i p lab) as [new|]; [|reflexivity].
+  rewrite (fold_nodes (fun h o => set_conns h o (map (fun c => if Nat.eqb c orig then new else c) (c_conns (ch h o)))));
+    [reflexivity|intros; reflexivity].
+Qed.
+
+Definition running_eq (h h' : heap) : Prop := forall j, n_running (nd h' j) = n_running (nd h j).
+
+Lemma adopt_running h i k : running_eq h (adopt h i k).
+Proof.
+  intros j. unfold adopt. destruct (n_parent (nd h k)) as [old|].
+  - destruct (Nat.eqb old i); [reflexivity|].
+    set (h1 := if memn k (n_children (nd h old)) then release_from h old k else h).
+    assert (R : n_running (nd h1 j) = n_running (nd h j) /\ n_running (nd h1 k) = n_running (nd h k)).
+    { unfold h1. destruct (memn k (n_children (nd h old))); [|split; reflexivity].
+      unfold release_from. rewrite !node_disconnect_nodes.
+      assert (G : forall x, n_running (nd (setn (setn h old (n_with_children (nd h old) (remove1 Nat.eqb k (n_children (nd h old)))
+                                                         (remove1 Nat.eqb k (n_starting (nd h old))))) k
+                              (n_with_parent (nd (setn h old (n_with_children (nd h old) (remove1 Nat.eqb k (n_children (nd h old)))
+                                                         (remove1 Nat.eqb k (n_starting (nd h old))))) k) None None)) x)
+                            = n_running (nd h x)).
+      { intros x. destruct (Nat.eq_dec k x) as [->|N1].
+        - rewrite nd_setn_eq. simpl. destruct (Nat.eq_dec old x) as [->|N2].
+          + now rewrite nd_setn_eq.
+          + now rewrite nd_setn_neq by exact N2.
+        - rewrite nd_setn_neq by exact N1. destruct (Nat.eq_dec old x) as [->|N2].
+          + now rewrite nd_setn_eq.
+          + now rewrite nd_setn_neq by exact N2. }
+      split; apply G. }
+    destruct R as [R1 R2]. destruct (Nat.eq_dec k j) as [->|N].
+    + rewrite nd_setn_eq. simpl. exact R2.
+    + rewrite nd_setn_neq by exact N. exact R1.
+  - destruct (Nat.eq_dec k j) as [->|N].
+    + now rewrite nd_setn_eq.
+    + now rewrite nd_setn_neq by exact N.
+Qed.
+
+Lemma fold_running {A} (f : heap -> A -> heap) : (forall h a, running_eq h (f h a)) ->
+  forall l h, running_eq h (fold_left f l h).
+Proof.
+  intros F l. induction l as [|a r IH]; simpl; intros h j; [reflexivity|]. now rewrite IH, F.
+Qed.
+
+Theorem merge_not_running mode h i c2 : n_running (nd (merge_remote mode h i c2) i) = false.
+Proof.
+  rewrite merge_remote_staged.
+  assert (H3 : n_running (nd (m_h3 mode h i c2) i) = false).
+  { unfold m_h3. rewrite nd_setn_eq. simpl. unfold m_h2, set_flags. now rewrite nd_setn_eq. }
+  assert (H4 : n_running (nd (m_h4 mode h i c2) i) = false).
+  { unfold m_h4. rewrite (fold_running (fun h k => adopt h i k)) by (intros; apply adopt_running). exact H3. }
+  assert (H5 : n_running (nd (m_h5 mode h i c2) i) = false).
+  { unfold m_h5. now rewrite restore_conns_nodes. }
+  assert (H6 : n_running (nd (m_h6 mode h i c2) i) = false).
+  { destruct (st6_struct mode h i c2) as [N _]. now rewrite N. }
+  assert (H7 : n_running (nd (m_h7 mode h i c2) i) = false).
+  { unfold m_h7. destruct (grafts mode (n_kind (nd h i))); [|exact H6].
+    rewrite (fold_nodes (fun h o => graft_one h i o)) by (intros; apply graft_one_nodes). exact H6. }
+  unfold m_final. destruct mode; [exact H7|].
+  destruct (fold_struct (fun h0 o => relink_one h0 i o) (fun h0 o => relink_one_struct h0 i o) (local_data h i)
+              (fold_left (fun h0 c => setc h0 c (c_with_owner (ch h0 c) i)) (n_chans (nd (m_h7 Repaired h i c2) i))
+                         (m_h7 Repaired h i c2))) as [N _].
+  rewrite N. destruct (owner_fold i (n_chans (nd (m_h7 Repaired h i c2) i)) (m_h7 Repaired h i c2)) as (A & _).
+  now rewrite A.
+Qed.
+
+(* ------------------------------------------------------------------ the input lock *)
+Arguments body : simpl never.
+Arguments run_node : simpl never.
+Arguments restore : simpl never.
+Arguments dump : simpl never.
+Arguments merge_remote : simpl never.
+Arguments emit_ran : simpl never.
+
+Lemma set_val_locked f h c v : locked h c = true -> set_val (S f) h c v = None.
+Proof. intros L. simpl. now rewrite L. Qed.
+
+(* whatever the graph state: an input channel whose OWNER is running refuses, nothing changes *)
+Theorem lock_refuses mode X s l v c :
+  find_chan (c_heap s) X PIn l = Some c ->
+  n_running (nd (c_heap s) (c_owner (ch (c_heap s) c))) = true ->
+  step mode X s (OSet l v) = log s (c_heap s) (c_jobs s) "RuntimeError".
+Proof.
+  intros F R. unfold step. rewrite F. unfold VFUEL. rewrite set_val_locked; [reflexivity|].
+  unfold locked, is_data_in. destruct (find_chan_in _ _ _ _ _ F) as (_ & -> & _). simpl. exact R.
+Qed.
+
+(* ... and conversely the only thing that refuses is a running owner somewhere down the receiver chain *)
+Lemma set_val_unlocked_one f h c v : locked h c = false -> c_recv (ch h c) = None ->
+  set_val (S f) h c v = Some (setc h c (c_with_val (ch h c) v)).
+Proof. intros L R. simpl. now rewrite L, R. Qed.
+
+Definition job_node (j : job) : nat := match j with JSame i => i | JPick i _ => i end.
+
+Lemma set_flags_running h i r f : n_running (nd (set_flags h i r f) i) = r.
+Proof. unfold set_flags. now rewrite nd_setn_eq. Qed.
+
+Lemma set_outputs_nodes h i v j : nd (set_outputs h i v) j = nd h j.
+Proof.
+  unfold set_outputs. destruct (chans_of h i POut); [reflexivity|].
+  destruct (set_val'_struct h n (Some v)) as [N _]. apply N.
+Qed.
+
+(* after the done-callback the node is not running -- success, failure, merge or plain value, any heap *)
+Theorem complete_unlocks mode h j :
+  n_running (nd (fst (complete_job mode h j)) (job_node j)) = false.
+Proof.
+  unfold complete_job. destruct j as [i|i sd]; cbn [job_node].
+  - destruct (body mode RFUEL h i) as [h1 r]. destruct r; cbn [fst]; apply set_flags_running.
+  - destruct (restore h sd) as [h1 c1]. destruct (body mode RFUEL h1 c1) as [h2 r].
+    destruct r; cbn [fst]; try apply set_flags_running.
+    destruct (is_comp (n_kind (nd h2 i))).
+    + destruct (dump DFUEL h2 c1) as [sd2|]; cbn [fst]; [|apply set_flags_running].
+      destruct (restore h2 sd2) as [h3 c2]. cbn [fst]. apply merge_not_running.
+    + cbn [fst]. rewrite set_outputs_nodes. apply set_flags_running.
+Qed.
+
+(* hence nothing owned by that node is locked any more *)
+Corollary complete_unlocks_inputs mode h j c :
+  c_owner (ch (fst (complete_job mode h j)) c) = job_node j -> locked (fst (complete_job mode h j)) c = false.
+Proof. intros O. unfold locked. rewrite O, complete_unlocks. apply andb_false_r. Qed.
+
+(* ------------------------------------------------------------------ transparency of the schedule: with C01 (Dag.v) *)
+From PW Require Dag DagProofs.
+
+(* Dag.v: children 0..N-1 of a DAG-wired composite, [sem n] ANY function of the upstream outputs (a function
+   node, or a macro child whose own run is plain composition one level down by the same theorem),
+   [remote] ANY assignment of children to executors, the events deliver-any-pending-signal and
+   complete-ANY-outstanding-job.  Every quiescent run yields [denote]; hence so does the all-local one. *)
+Theorem remote_equals_local (N : nat) (ups : nat -> list nat) (sem : nat -> (nat -> Z) -> Z)
+  (acyclic : forall n u, In u (ups n) -> u < n)
+  (loc : forall n e e', (forall u, In u (ups n) -> e u = e' u) -> sem n e = sem n e') :
+  forall (remote : nat -> bool) order es s order' es' s',
+    NoDup order -> (forall n, In n order <-> n < N /\ ups n = []) ->
+    NoDup order' -> (forall n, In n order' <-> n < N /\ ups n = []) ->
+    Dag.run N ups sem remote (Dag.init N ups sem remote order) es = Some s -> Dag.quiescent N s ->
+    Dag.run N ups sem (fun _ => false) (Dag.init N ups sem (fun _ => false) order') es' = Some s' ->
+    Dag.quiescent N s' ->
+    (forall n, n < N -> Dag.out s n = Dag.out s' n) /\ (forall n, Dag.status s n <> Dag.Out).
+Proof.
+  intros remote order es s order' es' s' ND O ND' O' R Q R' Q'.
+  destruct (@DagProofs.dag_run_correct N ups sem remote acyclic loc order es s ND O R Q) as (_ & _ & _ & V & NR).
+  destruct (@DagProofs.dag_run_correct N ups sem (fun _ => false) acyclic loc order' es' s' ND' O' R' Q')
+    as (_ & _ & _ & V' & _).
+  split; [|exact NR]. intros n Hn. now rewrite V, V'.
+Qed.
+
+(* ------------------------------------------------------------------ concrete states (reflected from real object graphs by
+   harness/props/c10.py: workflow wf{ n0 -> n1 -> n2 } with n1 the macro MA = {a -> b}; ids = enumeration order) *)
+Definition demo_child : heap :=
+  (mkHeap [(0%nat, mkNode "wf"%string KWf None None ExNone false false [1%nat; 2%nat; 5%nat] [0%nat; 1%nat; 2%nat; 3%nat] [1%nat]);
+   (1%nat, mkNode "n0"%string (KLeaf FLin) (Some 0%nat) None ExNone false false [] [4%nat; 5%nat; 6%nat; 7%nat; 8%nat; 9%nat; 10%nat; 11%nat] []);
+   (2%nat, mkNode "n1"%string KMacro (Some 0%nat) None (ExInst 1%nat) false false [3%nat; 4%nat] [12%nat; 13%nat; 14%nat; 15%nat; 16%nat; 17%nat] [3%nat]);
+   (3%nat, mkNode "a"%string (KLeaf FLin) (Some 2%nat) None ExNone false false [] [18%nat; 19%nat; 20%nat; 21%nat; 22%nat; 23%nat; 24%nat; 25%nat] []);
+   (4%nat, mkNode "b"%string (KLeaf FLin) (Some 2%nat) None ExNone false false [] [26%nat; 27%nat; 28%nat; 29%nat; 30%nat; 31%nat; 32%nat; 33%nat] []);
+   (5%nat, mkNode "n2"%string (KLeaf FLin) (Some 0%nat) None ExNone false false [] [34%nat; 35%nat; 36%nat; 37%nat; 38%nat; 39%nat; 40%nat; 41%nat] [])] [(0%nat, mkChan 0%nat "run"%string SIn [] None None);
+   (1%nat, mkChan 0%nat "accumulate_and_run"%string SIn [] None None);
+   (2%nat, mkChan 0%nat "ran"%string SOut [] None None);
+   (3%nat, mkChan 0%nat "failed"%string SOut [] None None);
+   (4%nat, mkChan 1%nat "tag"%string PIn [] (Some (0)%Z) None);
+   (5%nat, mkChan 1%nat "k"%string PIn [] (Some (1)%Z) None);
+   (6%nat, mkChan 1%nat "a"%string PIn [] (Some (3)%Z) None);
+   (7%nat, mkChan 1%nat "y"%string POut [12%nat] (Some (4)%Z) None);
+   (8%nat, mkChan 1%nat "run"%string SIn [] None None);
+   (9%nat, mkChan 1%nat "accumulate_and_run"%string SIn [] None None);
+   (10%nat, mkChan 1%nat "ran"%string SOut [15%nat] None None);
+   (11%nat, mkChan 1%nat "failed"%string SOut [] None None);
+   (12%nat, mkChan 2%nat "x"%string PIn [7%nat] None (Some 20%nat));
+   (13%nat, mkChan 2%nat "out"%string POut [36%nat] None None);
+   (14%nat, mkChan 2%nat "run"%string SIn [] None None);
+   (15%nat, mkChan 2%nat "accumulate_and_run"%string SIn [10%nat] None None);
+   (16%nat, mkChan 2%nat "ran"%string SOut [39%nat] None None);
+   (17%nat, mkChan 2%nat "failed"%string SOut [] None None);
+   (18%nat, mkChan 3%nat "tag"%string PIn [] (Some (100)%Z) None);
+   (19%nat, mkChan 3%nat "k"%string PIn [] (Some (1)%Z) None);
+   (20%nat, mkChan 3%nat "a"%string PIn [] None None);
+   (21%nat, mkChan 3%nat "y"%string POut [28%nat] None None);
+   (22%nat, mkChan 3%nat "run"%string SIn [] None None);
+   (23%nat, mkChan 3%nat "accumulate_and_run"%string SIn [] None None);
+   (24%nat, mkChan 3%nat "ran"%string SOut [31%nat] None None);
+   (25%nat, mkChan 3%nat "failed"%string SOut [] None None);
+   (26%nat, mkChan 4%nat "tag"%string PIn [] (Some (101)%Z) None);
+   (27%nat, mkChan 4%nat "k"%string PIn [] (Some (2)%Z) None);
+   (28%nat, mkChan 4%nat "a"%string PIn [21%nat] None None);
+   (29%nat, mkChan 4%nat "y"%string POut [] None (Some 13%nat));
+   (30%nat, mkChan 4%nat "run"%string SIn [] None None);
+   (31%nat, mkChan 4%nat "accumulate_and_run"%string SIn [24%nat] None None);
+   (32%nat, mkChan 4%nat "ran"%string SOut [] None None);
+   (33%nat, mkChan 4%nat "failed"%string SOut [] None None);
+   (34%nat, mkChan 5%nat "tag"%string PIn [] (Some (2)%Z) None);
+   (35%nat, mkChan 5%nat "k"%string PIn [] (Some (5)%Z) None);
+   (36%nat, mkChan 5%nat "a"%string PIn [13%nat] None None);
+   (37%nat, mkChan 5%nat "y"%string POut [] None None);
+   (38%nat, mkChan 5%nat "run"%string SIn [] None None);
+   (39%nat, mkChan 5%nat "accumulate_and_run"%string SIn [16%nat] None None);
+   (40%nat, mkChan 5%nat "ran"%string SOut [] None None);
+   (41%nat, mkChan 5%nat "failed"%string SOut [] None None)] 42%nat []).
+
+Definition demo_alone : heap :=
+  (mkHeap [(0%nat, mkNode "n0"%string KMacro None None (ExInst 1%nat) false false [1%nat; 2%nat] [0%nat; 1%nat; 2%nat; 3%nat; 4%nat; 5%nat] [1%nat]);
+   (1%nat, mkNode "a"%string (KLeaf FLin) (Some 0%nat) None ExNone false false [] [6%nat; 7%nat; 8%nat; 9%nat; 10%nat; 11%nat; 12%nat; 13%nat] []);
+   (2%nat, mkNode "b"%string (KLeaf FLin) (Some 0%nat) None ExNone false false [] [14%nat; 15%nat; 16%nat; 17%nat; 18%nat; 19%nat; 20%nat; 21%nat] [])] [(0%nat, mkChan 0%nat "x"%string PIn [] (Some (3)%Z) (Some 8%nat));
+   (1%nat, mkChan 0%nat "out"%string POut [] None None);
+   (2%nat, mkChan 0%nat "run"%string SIn [] None None);
+   (3%nat, mkChan 0%nat "accumulate_and_run"%string SIn [] None None);
+   (4%nat, mkChan 0%nat "ran"%string SOut [] None None);
+   (5%nat, mkChan 0%nat "failed"%string SOut [] None None);
+   (6%nat, mkChan 1%nat "tag"%string PIn [] (Some (100)%Z) None);
+   (7%nat, mkChan 1%nat "k"%string PIn [] (Some (1)%Z) None);
+   (8%nat, mkChan 1%nat "a"%string PIn [] (Some (3)%Z) None);
+   (9%nat, mkChan 1%nat "y"%string POut [16%nat] None None);
+   (10%nat, mkChan 1%nat "run"%string SIn [] None None);
+   (11%nat, mkChan 1%nat "accumulate_and_run"%string SIn [] None None);
+   (12%nat, mkChan 1%nat "ran"%string SOut [19%nat] None None);
+   (13%nat, mkChan 1%nat "failed"%string SOut [] None None);
+   (14%nat, mkChan 2%nat "tag"%string PIn [] (Some (101)%Z) None);
+   (15%nat, mkChan 2%nat "k"%string PIn [] (Some (2)%Z) None);
+   (16%nat, mkChan 2%nat "a"%string PIn [9%nat] None None);
+   (17%nat, mkChan 2%nat "y"%string POut [] None (Some 1%nat));
+   (18%nat, mkChan 2%nat "run"%string SIn [] None None);
+   (19%nat, mkChan 2%nat "accumulate_and_run"%string SIn [12%nat] None None);
+   (20%nat, mkChan 2%nat "ran"%string SOut [] None None);
+   (21%nat, mkChan 2%nat "failed"%string SOut [] None None)] 22%nat []).
+
+Definition demo_links : heap :=
+  (mkHeap [(0%nat, mkNode "wf"%string KWf None None ExNone false false [1%nat; 2%nat; 6%nat] [0%nat; 1%nat; 2%nat; 3%nat] [1%nat]);
+   (1%nat, mkNode "n0"%string (KLeaf FLin) (Some 0%nat) None ExNone false false [] [4%nat; 5%nat; 6%nat; 7%nat; 8%nat; 9%nat; 10%nat; 11%nat] []);
+   (2%nat, mkNode "n1"%string KMacro (Some 0%nat) None ExNone false false [3%nat] [12%nat; 13%nat; 14%nat; 15%nat; 16%nat; 17%nat] [3%nat]);
+   (3%nat, mkNode "inner"%string KMacro (Some 2%nat) None (ExInst 1%nat) false false [4%nat; 5%nat] [18%nat; 19%nat; 20%nat; 21%nat; 22%nat; 23%nat] [4%nat]);
+   (4%nat, mkNode "a"%string (KLeaf FLin) (Some 3%nat) None ExNone false false [] [24%nat; 25%nat; 26%nat; 27%nat; 28%nat; 29%nat; 30%nat; 31%nat] []);
+   (5%nat, mkNode "b"%string (KLeaf FLin) (Some 3%nat) None ExNone false false [] [32%nat; 33%nat; 34%nat; 35%nat; 36%nat; 37%nat; 38%nat; 39%nat] []);
+   (6%nat, mkNode "n2"%string (KLeaf FLin) (Some 0%nat) None ExNone false false [] [40%nat; 41%nat; 42%nat; 43%nat; 44%nat; 45%nat; 46%nat; 47%nat] [])] [(0%nat, mkChan 0%nat "run"%string SIn [] None None);
+   (1%nat, mkChan 0%nat "accumulate_and_run"%string SIn [] None None);
+   (2%nat, mkChan 0%nat "ran"%string SOut [] None None);
+   (3%nat, mkChan 0%nat "failed"%string SOut [] None None);
+   (4%nat, mkChan 1%nat "tag"%string PIn [] (Some (0)%Z) None);
+   (5%nat, mkChan 1%nat "k"%string PIn [] (Some (1)%Z) None);
+   (6%nat, mkChan 1%nat "a"%string PIn [] (Some (3)%Z) None);
+   (7%nat, mkChan 1%nat "y"%string POut [12%nat] None None);
+   (8%nat, mkChan 1%nat "run"%string SIn [] None None);
+   (9%nat, mkChan 1%nat "accumulate_and_run"%string SIn [] None None);
+   (10%nat, mkChan 1%nat "ran"%string SOut [15%nat] None None);
+   (11%nat, mkChan 1%nat "failed"%string SOut [] None None);
+   (12%nat, mkChan 2%nat "x"%string PIn [7%nat] None (Some 18%nat));
+   (13%nat, mkChan 2%nat "out"%string POut [42%nat] None None);
+   (14%nat, mkChan 2%nat "run"%string SIn [] None None);
+   (15%nat, mkChan 2%nat "accumulate_and_run"%string SIn [10%nat] None None);
+   (16%nat, mkChan 2%nat "ran"%string SOut [45%nat] None None);
+   (17%nat, mkChan 2%nat "failed"%string SOut [] None None);
+   (18%nat, mkChan 3%nat "x"%string PIn [] None (Some 26%nat));
+   (19%nat, mkChan 3%nat "out"%string POut [] None (Some 13%nat));
+   (20%nat, mkChan 3%nat "run"%string SIn [] None None);
+   (21%nat, mkChan 3%nat "accumulate_and_run"%string SIn [] None None);
+   (22%nat, mkChan 3%nat "ran"%string SOut [] None None);
+   (23%nat, mkChan 3%nat "failed"%string SOut [] None None);
+   (24%nat, mkChan 4%nat "tag"%string PIn [] (Some (100)%Z) None);
+   (25%nat, mkChan 4%nat "k"%string PIn [] (Some (1)%Z) None);
+   (26%nat, mkChan 4%nat "a"%string PIn [] None None);
+   (27%nat, mkChan 4%nat "y"%string POut [34%nat] None None);
+   (28%nat, mkChan 4%nat "run"%string SIn [] None None);
+   (29%nat, mkChan 4%nat "accumulate_and_run"%string SIn [] None None);
+   (30%nat, mkChan 4%nat "ran"%string SOut [37%nat] None None);
+   (31%nat, mkChan 4%nat "failed"%string SOut [] None None);
+   (32%nat, mkChan 5%nat "tag"%string PIn [] (Some (101)%Z) None);
+   (33%nat, mkChan 5%nat "k"%string PIn [] (Some (2)%Z) None);
+   (34%nat, mkChan 5%nat "a"%string PIn [27%nat] None None);
+   (35%nat, mkChan 5%nat "y"%string POut [] None (Some 19%nat));
+   (36%nat, mkChan 5%nat "run"%string SIn [] None None);
+   (37%nat, mkChan 5%nat "accumulate_and_run"%string SIn [30%nat] None None);
+   (38%nat, mkChan 5%nat "ran"%string SOut [] None None);
+   (39%nat, mkChan 5%nat "failed"%string SOut [] None None);
+   (40%nat, mkChan 6%nat "tag"%string PIn [] (Some (2)%Z) None);
+   (41%nat, mkChan 6%nat "k"%string PIn [] (Some (5)%Z) None);
+   (42%nat, mkChan 6%nat "a"%string PIn [13%nat] None None);
+   (43%nat, mkChan 6%nat "y"%string POut [] None None);
+   (44%nat, mkChan 6%nat "run"%string SIn [] None None);
+   (45%nat, mkChan 6%nat "accumulate_and_run"%string SIn [16%nat] None None);
+   (46%nat, mkChan 6%nat "ran"%string SOut [] None None);
+   (47%nat, mkChan 6%nat "failed"%string SOut [] None None)] 48%nat []).
+
+Definition demo_wfroot : heap :=
+  (mkHeap [(0%nat, mkNode "wf"%string KWf None None (ExInst 1%nat) false false [1%nat] [0%nat; 1%nat; 2%nat; 3%nat] [1%nat]);
+   (1%nat, mkNode "n0"%string (KLeaf FLin) (Some 0%nat) None ExNone false false [] [4%nat; 5%nat; 6%nat; 7%nat; 8%nat; 9%nat; 10%nat; 11%nat] [])] [(0%nat, mkChan 0%nat "run"%string SIn [] None None);
+   (1%nat, mkChan 0%nat "accumulate_and_run"%string SIn [] None None);
+   (2%nat, mkChan 0%nat "ran"%string SOut [] None None);
+   (3%nat, mkChan 0%nat "failed"%string SOut [] None None);
+   (4%nat, mkChan 1%nat "tag"%string PIn [] (Some (0)%Z) None);
+   (5%nat, mkChan 1%nat "k"%string PIn [] (Some (1)%Z) None);
+   (6%nat, mkChan 1%nat "a"%string PIn [] (Some (3)%Z) None);
+   (7%nat, mkChan 1%nat "y"%string POut [] None None);
+   (8%nat, mkChan 1%nat "run"%string SIn [] None None);
+   (9%nat, mkChan 1%nat "accumulate_and_run"%string SIn [] None None);
+   (10%nat, mkChan 1%nat "ran"%string SOut [] None None);
+   (11%nat, mkChan 1%nat "failed"%string SOut [] None None)] 12%nat []).
+
+(* Node.run() up to the submit: fetch, running := True *)
+Definition submitted (h : heap) (i : nat) : heap :=
+  match fetch h i with Some h1 => set_flags h1 i true false | None => h end.
+
+(* the state in which the result of a boundary-crossing run of composite i is merged, and the copy *)
+Definition merge_site (mode : mmode) (h : heap) (i : nat) : heap * nat :=
+  match dump DFUEL h i with
+  | None => (h, i)
+  | Some sd =>
+      let (h1, c1) := restore h sd in
+      let (h2, r) := body mode RFUEL h1 c1 in
+      match dump DFUEL h2 c1 with
+      | Some sd2 => let (h3, c2) := restore h2 sd2 in (set_flags h3 i false false, c2)
+      | None => (h, i)
+      end
+  end.
+
+Definition site_child := merge_site AsWritten (submitted demo_child 2) 2.
+Definition as_for (h : heap) (i : nat) : heap :=
+  let n := nd h i in
+  setn h i (mkNode (n_label n) KFor (n_parent n) (n_detached n) (n_exec n) (n_running n) (n_failed n)
+                   (n_children n) (n_chans n) (n_starting n)).
+Definition site_for := merge_site AsWritten (as_for (submitted demo_child 2) 2) 2.
+
+Definition is_none {A} (o : option A) : bool := match o with None => true | Some _ => false end.
+
+(* S15: the merged macro has a parent AND the copy's detached path: its lexical path raises *)
+Theorem merge_path_refuted : exists h i c2,
+  merge_pre h i c2 /\ n_kind (nd h i) = KMacro /\ n_parent (nd h i) <> None /\
+  lpath PFUEL h i = Some "/wf/n1" /\ lpath PFUEL (merge_remote AsWritten h i c2) i = None.
+Proof.
+  exists (fst site_child), 2, (snd site_child). split; [apply merge_preb_sound; vm_compute; reflexivity|].
+  split; [vm_compute; reflexivity|]. split; [vm_compute; discriminate|]. split; vm_compute; reflexivity.
+Qed.
+
+(* the fresh IO channels are owned by the discarded copy, not by the node *)
+Theorem merge_owner_refuted : exists h i c2,
+  merge_pre h i c2 /\ n_kind (nd h i) = KMacro /\
+  forallb (fun c => Nat.eqb (c_owner (ch h c)) i) (n_chans (nd h i)) = true /\
+  let h' := merge_remote AsWritten h i c2 in
+  forallb (fun c => Nat.eqb (c_owner (ch h' c)) c2) (n_chans (nd h' i)) = true /\ n_chans (nd h' i) <> [].
+Proof.
+  exists (fst site_child), 2, (snd site_child). split; [apply merge_preb_sound; vm_compute; reflexivity|].
+  split; [vm_compute; reflexivity|]. split; [vm_compute; reflexivity|]. split; [vm_compute; reflexivity|vm_compute; discriminate].
+Qed.
+
+(* a For node (Composite's variant, no grafting): the fresh channels have no connections, the neighbours go on
+   listing the dead ones *)
+Theorem merge_for_refuted : exists h i c2 o x,
+  merge_pre h i c2 /\ n_kind (nd h i) = KFor /\ In o (n_chans (nd h i)) /\ In x (c_conns (ch h o)) /\
+  let h' := merge_remote AsWritten h i c2 in
+  c_conns (ch h' (fresh_of h c2 o)) = [] /\ In o (c_conns (ch h' x)) /\ ~ In o (n_chans (nd h' i)).
+Proof.
+  exists (fst site_for), 2, (snd site_for), 12, 7. split; [apply merge_preb_sound; vm_compute; reflexivity|].
+  split; [vm_compute; reflexivity|]. split; [vm_compute; tauto|]. split; [vm_compute; tauto|].
+  split; [vm_compute; reflexivity|]. split; [vm_compute; tauto|]. vm_compute. intuition discriminate.
+Qed.
+
+(* value links between the merged macro and its PARENT macro are not carried over: the parent's output is never
+   delivered (the patched discipline delivers it) *)
+Theorem merge_links_refuted :
+  let out := match find_chan demo_links 2 POut "out" with Some c => c | None => 0 end in
+  n_kind (nd demo_links 2) = KMacro /\ c_owner (ch demo_links out) = 2 /\
+  c_val (ch (fst (run_node AsWritten RFUEL demo_links 0)) out) = None /\
+  c_val (ch (fst (run_node Repaired RFUEL demo_links 0)) out) = Some 7%Z.
+Proof. vm_compute. repeat split; reflexivity. Qed.
+
+(* the lock after a merge: the second time the macro is out, its inputs are no longer frozen *)
+Theorem lock_refuted_after_merge :
+  let X := 0 in
+  let s := run_ops AsWritten X demo_alone [ORun; OComplete; ORun] in
+  n_running (nd (c_heap s) X) = true /\ c_jobs s <> [] /\
+  c_log (step AsWritten X s (OSet "x" 9%Z)) = [OS "Future"; OS "done"; OS "Future"; OS "ok"] /\
+  c_log (step Repaired X (run_ops Repaired X demo_alone [ORun; OComplete; ORun]) (OSet "x" 9%Z))
+    = [OS "Future"; OS "done"; OS "Future"; OS "RuntimeError"].
+Proof. vm_compute. repeat split; try reflexivity. discriminate. Qed.
+
+(* a workflow that is out: its inputs are its children's channels, and those are not locked *)
+Theorem lock_refuted_workflow : exists h wf c,
+  n_kind (nd h wf) = KWf /\ n_running (nd h wf) = true /\ crosses (n_exec (nd h wf)) = true /\
+  In c (shown_inputs h wf) /\ locked h c = false /\ c_owner (ch h c) <> wf.
+Proof.
+  exists (submitted demo_wfroot 0), 0, 6. vm_compute. repeat split; try reflexivity; try tauto. discriminate.
+Qed.
+
+(* ------------------------------------------------------------------ corollaries in the property's own words *)
+(* mutual, pointing at the fresh channel, at the same position; the dead channel is not listed any more *)
+Corollary neighbours_repointed mode h i c2 : merge_pre h i c2 -> grafts mode (n_kind (nd h i)) = true ->
+  forall o x, In o (n_chans (nd h i)) -> In x (c_conns (ch h o)) ->
+  let h' := merge_remote mode h i c2 in
+  let f := fresh_of h c2 o in
+  In f (n_chans (nd h' i)) /\ ckey h' f = ckey h o /\
+  c_conns (ch h' f) = c_conns (ch h o) /\                                   (* our side: same list, same order *)
+  c_conns (ch h' x) = map (fresh_sub h i c2) (c_conns (ch h x)) /\          (* their side: replaced in place   *)
+  (In o (c_conns (ch h x)) -> In f (c_conns (ch h' x))) /\ ~ In o (c_conns (ch h' x)).
+Proof.
+  intros MP GR o x Io Ix. simpl.
+  destruct (merge_spec mode h i c2 MP GR) as [(_ & _ & _ & F & N) _].
+  destruct (F o Io) as (F1 & F2 & F3). destruct (mp_nb _ _ _ MP o x Io Ix) as (N1 & N2 & N3).
+  specialize (N x N1 N2). repeat split; try assumption.
+  - intros I. rewrite N. apply in_map_iff. exists o. split; [|exact I].
+    unfold fresh_sub. apply memn_true in Io. now rewrite Io.
+  - rewrite N. intros I. apply in_map_iff in I. destruct I as (y & E & Iy). unfold fresh_sub in E.
+    destruct (memn y (n_chans (nd h i))) eqn:M.
+    + apply memn_true in M. destruct (fresh_in h i c2 MP y M) as [Inw _]. rewrite E in Inw.
+      destruct (mp_disj_o _ _ _ MP o Io) as [_ D]. exact (D Inw).
+    + apply memn_false in M. subst y. exact (M Io).
+Qed.
+
+(* a node without parent never ends with an unusable lexical path, whatever the copy carried *)
+Corollary merge_path_partial h i c2 : merge_pre h i c2 -> n_kind (nd h i) = KMacro -> n_parent (nd h i) = None ->
+  forall f, lpath (S f) (merge_remote AsWritten h i c2) i <> None.
+Proof.
+  intros MP K P f. assert (GR : grafts AsWritten (n_kind (nd h i)) = true) by (rewrite K; reflexivity).
+  destruct (merge_spec AsWritten h i c2 MP GR) as [((Pp & _) & _) _].
+  simpl. rewrite Pp, P. destruct (n_detached _); discriminate.
+Qed.
+
+(* the patched merge gives the lock back: every channel of the node's panels is owned by the node *)
+Corollary repaired_lock_again h i c2 s l v c X :
+  merge_pre h i c2 -> c_heap s = merge_remote Repaired h i c2 -> X = i ->
+  find_chan (c_heap s) X PIn l = Some c -> n_running (nd (c_heap s) X) = true ->
+  step Repaired X s (OSet l v) = log s (c_heap s) (c_jobs s) "RuntimeError".
+Proof.
+  intros MP E -> F R. apply (lock_refuses Repaired i s l v c F).
+  destruct (merge_spec Repaired h i c2 MP eq_refl) as [_ [_ O]]. simpl in O.
+  destruct (find_chan_in _ _ _ _ _ F) as (I & _). rewrite E in I |- *. rewrite (O c I). rewrite <- E. exact R.
+Qed.
+
+(* ------------------------------------------------------------------ a function node across the boundary: what is
+   pickled, what comes back, and that it belongs to the inputs the node shows *)
+
+(* ---- allocation *)
+Lemma ch_alloc_chan_new h x : ch (fst (alloc_chan h x)) (h_next h) = x.
+Proof. unfold alloc_chan, ch; simpl. now rewrite Nat.eqb_refl. Qed.
+Lemma ch_alloc_chan_old h x c : c <> h_next h -> ch (fst (alloc_chan h x)) c = ch h c.
+Proof.
+  intros N. unfold alloc_chan, ch; simpl. destruct (Nat.eqb c (h_next h)) eqn:E; [apply Nat.eqb_eq in E; congruence|reflexivity].
+Qed.
+Lemma nd_alloc_chan h x j : nd (fst (alloc_chan h x)) j = nd h j.
+Proof. reflexivity. Qed.
+
+Lemma alloc_chans_spec owner : forall l h h' cs, alloc_chans h owner l = (h', cs) ->
+  (forall c, c < h_next h -> ch h' c = ch h c) /\
+  h_next h <= h_next h' /\
+  (forall j, nd h' j = nd h j) /\
+  map (ch h') cs = map (fun t => match t with (lab, p, v) => mkChan owner lab p [] v None end) l /\
+  (forall c, In c cs -> h_next h <= c).
+Proof.
+  induction l as [|[[lab p] v] r IH]; intros h h' cs E.
+  - simpl in E. injection E as <- <-. repeat split; auto. intros c [].
+  - cbn [alloc_chans] in E.
+    remember (alloc_chan h (mkChan owner lab p [] v None)) as ac eqn:Eac. destruct ac as [h1 c].
+    assert (Hc : c = h_next h) by (unfold alloc_chan in Eac; now injection Eac as _ ->).
+    assert (Hh1 : h1 = fst (alloc_chan h (mkChan owner lab p [] v None))) by now rewrite <- Eac.
+    assert (Hn : h_next h1 = S (h_next h)) by (rewrite Hh1; reflexivity).
+    destruct (alloc_chans h1 owner r) as [h2 cs'] eqn:E2. injection E as <- <-.
+    destruct (IH h1 h2 cs' E2) as (A & B & C & D & F). repeat split.
+    + intros x Hx. rewrite A by lia. rewrite Hh1. apply ch_alloc_chan_old. lia.
+    + lia.
+    + intros j. rewrite C, Hh1. apply nd_alloc_chan.
+    + cbn [map]. f_equal; [|exact D]. rewrite A by lia. subst c. rewrite Hh1. apply ch_alloc_chan_new.
+    + intros x [<-|Hx]; [lia|]. specialize (F x Hx). lia.
+Qed.
+
+Lemma nd_alloc_node_new h n : nd (fst (alloc_node h n)) (h_next h) = n.
+Proof. unfold alloc_node, nd; simpl. now rewrite Nat.eqb_refl. Qed.
+Lemma nd_alloc_node_old h n j : j <> h_next h -> nd (fst (alloc_node h n)) j = nd h j.
+Proof.
+  intros N. unfold alloc_node, nd; simpl. destruct (Nat.eqb j (h_next h)) eqn:E; [apply Nat.eqb_eq in E; congruence|reflexivity].
+Qed.
+
+Lemma lookup_children_nil h labels : lookup_children h [] labels = [].
+Proof. unfold lookup_children. induction labels as [|l r IH]; simpl; [reflexivity|exact IH]. Qed.
+
+Definition mk_of (owner : nat) (t : string * panel * option Z) : chan :=
+  match t with (lab, p, v) => mkChan owner lab p [] v None end.
+
+(* unpickling a function node: a fresh node with fresh channels carrying the pickled labels, panels, values *)
+Lemma restore_leaf h label f det ex run fail chans starting :
+  forall h' c1, restore h (SD label (KLeaf f) det ex run fail chans [] [] [] starting [] []) = (h', c1) ->
+  c1 = h_next h /\
+  n_kind (nd h' c1) = KLeaf f /\
+  map (ch h') (n_chans (nd h' c1)) = map (mk_of (h_next h)) chans /\
+  (forall c, c < h_next h -> ch h' c = ch h c) /\
+  (forall j, j <> h_next h -> nd h' j = nd h j) /\
+  (forall c, In c (n_chans (nd h' c1)) -> h_next h < c).
+Proof.
+  intros h' c1. unfold restore. cbv beta iota. fold restore.
+  remember (alloc_node h (mkNode label (KLeaf f) None det ex run fail [] [] [])) as an eqn:Ean.
+  destruct an as [h0 i].
+  assert (Hi : i = h_next h) by (unfold alloc_node in Ean; now injection Ean as _ ->).
+  assert (Hh0 : h0 = fst (alloc_node h (mkNode label (KLeaf f) None det ex run fail [] [] []))) by now rewrite <- Ean.
+  assert (Hn0 : h_next h0 = S (h_next h)) by (rewrite Hh0; reflexivity).
+  destruct (alloc_chans h0 i chans) as [h1 cs] eqn:E1.
+  destruct (alloc_chans_spec i chans h0 h1 cs E1) as (A & B & C & D & F).
+  cbn [fold_left has_links restore_conns rev]. rewrite lookup_children_nil.
+  intros E. injection E as <- <-.
+  split; [exact Hi|]. split; [now rewrite nd_setn_eq|]. split; [|split; [|split]].
+  - rewrite nd_setn_eq. cbn [n_chans]. subst i. exact D.
+  - intros c Hc. rewrite ch_setn, A by lia. rewrite Hh0. reflexivity.
+  - intros j Hj. rewrite nd_setn_neq by congruence. rewrite C, Hh0. now apply nd_alloc_node_old.
+  - intros c. rewrite nd_setn_eq. cbn [n_chans]. intros Hc. specialize (F c Hc). lia.
+Qed.
+
+
+Definition triple_of (h : heap) (c : nat) : string * panel * option Z := (c_label (ch h c), c_panel (ch h c), c_val (ch h c)).
+
+Lemma dump_leaf k h X f sd : n_kind (nd h X) = KLeaf f -> n_children (nd h X) = [] ->
+  dump (S k) h X = Some sd ->
+  exists d ex' st, sd = SD (n_label (nd h X)) (KLeaf f) d ex' (n_running (nd h X)) (n_failed (nd h X))
+                          (map (triple_of h) (n_chans (nd h X))) [] [] [] st [] [].
+Proof.
+  intros K C. lazy beta iota fix delta [dump]. fold dump. cbv zeta. rewrite K, C. cbn [has_links dump_list conn_strings flat_map].
+  destruct (match n_parent (nd h X) with
+            | Some p => match lpath PFUEL h p with Some s => Some (Some s) | None => None end
+            | None => Some (n_detached (nd h X)) end) as [d|]; [|discriminate].
+  intros E. injection E as <-. now exists d, (strip_exec (n_exec (nd h X))), (map (fun s => n_label (nd h s)) (n_starting (nd h X))).
+Qed.
+
+(* the values of a list of channel records' data inputs / the first data output *)
+Definition pin_vals (l : list chan) : list (option Z) := map c_val (filter (fun x => panel_eqb (c_panel x) PIn) l).
+
+Lemma filter_map_comm {A B} (g : A -> B) (p : B -> bool) l : map g (filter (fun a => p (g a)) l) = filter p (map g l).
+Proof. induction l as [|a r IH]; simpl; [reflexivity|]. destruct (p (g a)); simpl; now rewrite IH. Qed.
+
+Lemma input_vals_eq h i : input_vals h i = all_some (pin_vals (map (ch h) (n_chans (nd h i)))).
+Proof.
+  unfold input_vals, pin_vals, chans_of. f_equal.
+  rewrite <- (filter_map_comm (ch h) (fun x => panel_eqb (c_panel x) PIn)). now rewrite map_map.
+Qed.
+
+Lemma pin_vals_mk owner h l : pin_vals (map (mk_of owner) (map (triple_of h) l)) = pin_vals (map (ch h) l).
+Proof.
+  unfold pin_vals. induction l as [|c r IH]; simpl; [reflexivity|].
+  destruct (panel_eqb (c_panel (ch h c)) PIn); simpl; now rewrite IH.
+Qed.
+
+Lemma body_leaf mode k h i f : n_kind (nd h i) = KLeaf f ->
+  body mode (S k) h i = match input_vals h i with
+                        | Some vals => match apply_fun f vals with
+                                       | Some v => (set_outputs h i v, ROk)
+                                       | None => (h, RFail) end
+                        | None => (h, RFail) end.
+Proof. intros K. lazy beta iota fix delta [body]. now rewrite K. Qed.
+
+
+Lemma set_val'_plain h c v : locked h c = false -> c_recv (ch h c) = None ->
+  set_val' h c v = setc h c (c_with_val (ch h c) v).
+Proof. intros L R. unfold set_val', VFUEL. now rewrite (set_val_unlocked_one _ h c v L R). Qed.
+
+Lemma locked_out h c : c_panel (ch h c) = POut -> locked h c = false.
+Proof. intros P. unfold locked, is_data_in. now rewrite P. Qed.
+
+Lemma chans_of_in h i p c : In c (chans_of h i p) -> In c (n_chans (nd h i)) /\ c_panel (ch h c) = p.
+Proof.
+  unfold chans_of. rewrite filter_In. intros [I E]. split; [exact I|].
+  destruct (c_panel (ch h c)), p; simpl in E; congruence.
+Qed.
+
+Lemma chans_of_agree h h' i j p :
+  n_chans (nd h' j) = n_chans (nd h i) -> (forall c, In c (n_chans (nd h i)) -> c_panel (ch h' c) = c_panel (ch h c)) ->
+  chans_of h' j p = chans_of h i p.
+Proof.
+  intros N P. unfold chans_of. rewrite N. apply filter_ext_in. intros c Ic. now rewrite P.
+Qed.
+
+Lemma filter_mk owner h p l :
+  filter (fun x => panel_eqb (c_panel x) p) (map (mk_of owner) (map (triple_of h) l))
+  = map (mk_of owner) (map (triple_of h) (filter (fun c => panel_eqb (c_panel (ch h c)) p) l)).
+Proof.
+  induction l as [|c r IH]; simpl; [reflexivity|].
+  destruct (panel_eqb (c_panel (ch h c)) p); simpl; now rewrite IH.
+Qed.
+
+(* What crosses the boundary for a function node and what comes back: the value of its function on the inputs
+   it had when it was pickled -- which are the inputs it still shows if nothing touched them meanwhile. *)
+Theorem leaf_delivery mode h X f sd h' vals v o rest :
+  n_kind (nd h X) = KLeaf f -> n_children (nd h X) = [] ->
+  dump DFUEL h X = Some sd ->
+  nd h' X = nd h X -> (forall c, In c (n_chans (nd h X)) -> ch h' c = ch h c) ->
+  X < h_next h' -> (forall c, In c (n_chans (nd h X)) -> c < h_next h') ->
+  input_vals h X = Some vals -> apply_fun f vals = Some v ->
+  chans_of h X POut = o :: rest -> c_recv (ch h o) = None ->
+  snd (complete_job mode h' (JPick X sd)) = true /\
+  c_val (ch (fst (complete_job mode h' (JPick X sd))) o) = Some v.
+Proof.
+  intros K C D NX CX LX LC IV AF PO RO.
+  unfold DFUEL in D. destruct (dump_leaf _ h X f sd K C D) as (d & ex' & st & ->).
+  unfold complete_job.
+  destruct (restore h' _) as [h1 c1] eqn:ER.
+  destruct (restore_leaf _ _ _ _ _ _ _ _ _ _ _ ER) as (Hc1 & K1 & M1 & Old1 & Nd1 & Fresh1).
+  unfold RFUEL. rewrite (body_leaf mode _ h1 c1 f K1).
+  assert (IV1 : input_vals h1 c1 = Some vals).
+  { rewrite input_vals_eq, M1, pin_vals_mk, <- input_vals_eq. exact IV. }
+  rewrite IV1, AF.
+  (* the copy's output channel *)
+  assert (OC : exists oc rest', chans_of h1 c1 POut = oc :: rest' /\ ch h1 oc = mk_of (h_next h') (triple_of h o)).
+  { assert (E : map (ch h1) (chans_of h1 c1 POut) = map (mk_of (h_next h')) (map (triple_of h) (chans_of h X POut))).
+    { unfold chans_of.
+      rewrite (filter_map_comm (ch h1) (fun x => panel_eqb (c_panel x) POut)), M1.
+      apply filter_mk. }
+    rewrite PO in E. destruct (chans_of h1 c1 POut) as [|oc rest']; [discriminate|].
+    cbn [map] in E. injection E as E _. now exists oc, rest'. }
+  destruct OC as (oc & rest' & POc & Hoc).
+  assert (Poc : c_panel (ch h1 oc) = POut).
+  { rewrite Hoc. unfold mk_of, triple_of. simpl. apply (chans_of_in h X POut o). rewrite PO. now left. }
+  assert (SO1 : set_outputs h1 c1 v = setc h1 oc (c_with_val (ch h1 oc) (Some v))).
+  { unfold set_outputs. rewrite POc. apply set_val'_plain; [now apply locked_out|]. rewrite Hoc. reflexivity. }
+  set (h2 := set_outputs h1 c1 v) in *.
+  assert (NX2 : nd h2 X = nd h X).
+  { unfold h2. rewrite set_outputs_nodes, Nd1 by lia. exact NX. }
+  rewrite NX2, K. cbn [is_comp fst snd]. split; [reflexivity|].
+  assert (In1 : In oc (n_chans (nd h1 c1))) by (apply (chans_of_in h1 c1 POut oc); rewrite POc; now left).
+  assert (CV : copy_value h2 c1 = v).
+  { unfold copy_value.
+    assert (E2 : chans_of h2 c1 POut = chans_of h1 c1 POut).
+    { apply chans_of_agree.
+      - unfold h2. now rewrite set_outputs_nodes.
+      - intros c _. rewrite SO1. destruct (Nat.eq_dec oc c) as [->|N]; [now rewrite ch_setc_eq|now rewrite ch_setc_neq]. }
+    rewrite E2, POc, SO1, ch_setc_eq. reflexivity. }
+  rewrite CV.
+  set (h3 := set_flags h2 X false false).
+  assert (CH3 : forall c, In c (n_chans (nd h X)) -> ch h3 c = ch h c).
+  { intros c Ic. unfold h3, set_flags. rewrite ch_setn, SO1.
+    assert (oc <> c) by (specialize (Fresh1 oc In1); specialize (LC c Ic); lia).
+    rewrite ch_setc_neq by assumption. rewrite Old1 by (apply LC, Ic). now apply CX. }
+  assert (N3 : n_chans (nd h3 X) = n_chans (nd h X)).
+  { unfold h3, set_flags. rewrite nd_setn_eq. cbn [n_chans n_with_flags]. now rewrite NX2. }
+  assert (Io : In o (n_chans (nd h X)) /\ c_panel (ch h o) = POut) by (apply chans_of_in; rewrite PO; now left).
+  unfold set_outputs. rewrite (chans_of_agree h h3 X X POut N3) by (intros c Ic; now rewrite CH3).
+  rewrite PO. rewrite set_val'_plain.
+  - now rewrite ch_setc_eq.
+  - apply locked_out. rewrite CH3 by apply Io. apply Io.
+  - rewrite CH3 by apply Io. exact RO.
+Qed.
+
+(* ---- while the node is out, assignments bounce: the heap does not move *)
+Definition is_set (o : op) : Prop := match o with OSet _ _ => True | _ => False end.
+
+Lemma sets_frozen mode X : forall sets s, Forall is_set sets ->
+  n_running (nd (c_heap s) X) = true ->
+  (forall c, In c (chans_of (c_heap s) X PIn) -> c_owner (ch (c_heap s) c) = X) ->
+  c_heap (fold_left (step mode X) sets s) = c_heap s /\ c_jobs (fold_left (step mode X) sets s) = c_jobs s.
+Proof.
+  induction sets as [|o r IH]; intros s F R O; [split; reflexivity|].
+  inversion F as [|? ? Ho Fr]; subst. destruct o as [l v| | |]; try contradiction. cbn [fold_left].
+  assert (E : c_heap (step mode X s (OSet l v)) = c_heap s /\ c_jobs (step mode X s (OSet l v)) = c_jobs s).
+  { destruct (find_chan (c_heap s) X PIn l) as [c|] eqn:Fc.
+    - rewrite (lock_refuses mode X s l v c Fc); [split; reflexivity|].
+      destruct (find_chan_in _ _ _ _ _ Fc) as (I & P & _).
+      rewrite O; [exact R|]. unfold chans_of. apply filter_In. split; [exact I|]. now rewrite P.
+    - unfold step. rewrite Fc. split; reflexivity. }
+  destruct E as [E1 E2]. destruct (IH (step mode X s (OSet l v)) Fr) as [A B].
+  - now rewrite E1.
+  - intros c. rewrite E1. apply O.
+  - split; congruence.
+Qed.
+
+Lemma set_val_next fuel : forall h c v h1, set_val fuel h c v = Some h1 -> h_next h1 = h_next h.
+Proof.
+  induction fuel as [|f IH]; simpl; intros h c v h1 E; [now injection E as <-|].
+  destruct (locked h c); [discriminate|]. destruct (c_recv (ch h c)) as [r|].
+  - destruct (set_val f h r v) as [h2|] eqn:E2; [|discriminate]. injection E as <-. simpl. eapply IH; exact E2.
+  - now injection E as <-.
+Qed.
+
+Lemma fetch_list_frame : forall cs h h1, fetch_list h cs = Some h1 -> struct_eq h h1 /\ h_next h1 = h_next h.
+Proof.
+  induction cs as [|c r IH]; simpl; intros h h1 E.
+  - injection E as <-. split; [apply struct_eq_refl|reflexivity].
+  - destruct (fetch_one h c) as [h2|] eqn:E2; [|discriminate].
+    assert (S2 : struct_eq h h2 /\ h_next h2 = h_next h).
+    { unfold fetch_one in E2. destruct (find _ _) as [o|].
+      - split; [eapply set_val_struct; exact E2|eapply set_val_next; exact E2].
+      - injection E2 as <-. split; [apply struct_eq_refl|reflexivity]. }
+    destruct S2 as [Sa Sb]. destruct (IH h2 h1 E) as [Sc Sd]. split; [eapply struct_eq_trans; eassumption|congruence].
+Qed.
+
+(* The clause "so the outputs delivered belong to the inputs the node shows", for a function node that crosses
+   a pickle boundary: run(), then ANY assignments to its inputs, then the job ends. *)
+Theorem delivered_belongs_to_shown mode X f h h1 sets vals v o rest :
+  n_kind (nd h X) = KLeaf f -> n_children (nd h X) = [] -> crosses (n_exec (nd h X)) = true ->
+  fetch h X = Some h1 -> n_running (nd h X) = false -> n_failed (nd h X) = false ->
+  (forall c, In c (n_chans (nd h X)) -> c_owner (ch h c) = X /\ c < h_next h) -> X < h_next h ->
+  dump DFUEL (set_flags h1 X true false) X <> None ->
+  Forall is_set sets ->
+  input_vals h1 X = Some vals -> apply_fun f vals = Some v ->
+  chans_of h1 X POut = o :: rest -> c_recv (ch h1 o) = None ->
+  let s2 := fold_left (step mode X) (ORun :: sets) (mkC h [] []) in
+  exists sd, c_jobs s2 = [JPick X sd] /\
+             input_vals (c_heap s2) X = Some vals /\
+             snd (complete_job mode (c_heap s2) (JPick X sd)) = true /\
+             c_val (ch (fst (complete_job mode (c_heap s2) (JPick X sd))) o) = Some v.
+Proof.
+  intros K C Cr Fe Ru Fa Own LX Du Fs IV AF PO RO. cbn [fold_left].
+  destruct (fetch_list_frame _ _ _ Fe) as [[N1 C1] Nx1].
+  set (h2 := set_flags h1 X true false).
+  destruct (dump DFUEL h2 X) as [sd|] eqn:ED; [|exfalso; apply Du; exact ED].
+  assert (S1 : step mode X (mkC h [] []) ORun = log (mkC h [] []) h2 [JPick X sd] "Future").
+  { unfold step, submit. cbn [c_heap c_jobs]. rewrite Fe. rewrite !N1, Ru, Fa.
+    unfold inputs_ready. rewrite IV. cbn [orb negb].
+    assert (HE : has_exec (n_exec (nd h X)) = true) by (destruct (n_exec (nd h X)); [discriminate|reflexivity|reflexivity]).
+    rewrite HE, Cr. fold h2. rewrite ED. reflexivity. }
+  rewrite S1.
+  assert (NX2 : nd h2 X = n_with_flags (nd h X) true false) by (unfold h2, set_flags; now rewrite nd_setn_eq, N1).
+  assert (CH2 : forall c, ch h2 c = ch h1 c) by reflexivity.
+  destruct (sets_frozen mode X sets (log (mkC h [] []) h2 [JPick X sd] "Future") Fs) as [A B].
+  - cbn [c_heap log]. now rewrite NX2.
+  - cbn [c_heap log]. intros c Ic. apply chans_of_in in Ic. destruct Ic as [Ic _].
+    rewrite NX2 in Ic. cbn [n_chans n_with_flags] in Ic. rewrite CH2. destruct (C1 c) as [Sg _].
+    rewrite (csig_owner _ _ _ Sg). apply Own, Ic.
+  - cbn [c_heap c_jobs log] in A, B. exists sd. rewrite A, B. split; [reflexivity|].
+    assert (IV2 : input_vals h2 X = Some vals).
+    { rewrite input_vals_eq. rewrite NX2. cbn [n_chans n_with_flags]. rewrite <- IV, input_vals_eq, N1. reflexivity. }
+    split; [exact IV2|].
+    apply (leaf_delivery mode h2 X f sd h2 vals v o rest).
+    + now rewrite NX2.
+    + now rewrite NX2.
+    + exact ED.
+    + reflexivity.
+    + reflexivity.
+    + unfold h2, set_flags. cbn [h_next setn]. lia.
+    + intros c Ic. rewrite NX2 in Ic. cbn [n_chans n_with_flags] in Ic. unfold h2, set_flags. cbn [h_next setn].
+      rewrite Nx1. apply Own, Ic.
+    + exact IV2.
+    + exact AF.
+    + rewrite <- PO. apply chans_of_agree; [now rewrite NX2, N1|reflexivity].
+    + exact RO.
+Qed.
